@@ -1605,10 +1605,12 @@ impl SubRule {
                         last_pos = sp;
                         debug_assert!(res_word.in_bounds(sp));
                         // "Replace with output IPA.
+                        let run_len = res_word.seg_length_at(sp);
                         let lc = res_word.syllables[sp.syll_index].replace_segment(sp.seg_index, seg, mods, &self.alphas, out_state.position)?;
                         total_len_change[sp.syll_index] += lc;
-                        // leave the cursor on the last copy of the segment as it now stands, so that the scan does not re-enter it
-                        last_pos.seg_index = sp.seg_index + res_word.seg_length_at(sp) - 1;
+                        // leave the cursor on the last copy of the segment that was written, so that the scan does not re-enter it
+                        // (an identical segment that happens to follow is another segment and has still to be looked at)
+                        last_pos.seg_index = (sp.seg_index as isize + run_len as isize - 1 + lc as isize).max(sp.seg_index as isize) as usize;
                         if self.input.len() == self.output.len() {
                             if state_index < self.input.len() -1 {
                                 last_pos.seg_index +=1;
@@ -1731,9 +1733,10 @@ impl SubRule {
                                     match &set_output[i].kind {
                                         ParseElement::Ipa(seg, mods) => {
                                             // as for an output outside a set: the whole (possibly long) segment is replaced
+                                            let run_len = res_word.seg_length_at(sp);
                                             let lc = res_word.syllables[sp.syll_index].replace_segment(sp.seg_index, seg, mods, &self.alphas, set_output[i].position)?;
                                             total_len_change[sp.syll_index] += lc;
-                                            last_pos.seg_index = sp.seg_index + res_word.seg_length_at(sp) - 1;
+                                            last_pos.seg_index = (sp.seg_index as isize + run_len as isize - 1 + lc as isize).max(sp.seg_index as isize) as usize;
                                             if self.input.len() == self.output.len() {
                                                 if state_index < self.input.len() -1 {
                                                     last_pos.seg_index +=1;
